@@ -10,16 +10,19 @@
      fx_num_unset    D17  a LinkEntry starts with num = None (not 0)
      fx_remove_safe  D21  hiding the same file twice does not raise
      fx_dot_safe     D22  a dot entry that is not a readable regular file is
-                          left alone instead of being opened as a link file *)
+                          left alone instead of being opened as a link file
+     fx_hidden_stays D25  a ./ block for a file that is not in the listing is
+                          dropped when the file was hidden by its .cap file or
+                          when the block itself is a hide block *)
 From Coq Require Import ZArith String.
 From PG Require Import Lib.Str Lib.Cmp Lib.Sort Model.DirEntry.
 Local Open Scope N_scope.
 
 Record fixes := mkFixes {
   fx_skip_child : bool; fx_sorted_enum : bool; fx_dash_hides : bool;
-  fx_num_unset : bool; fx_remove_safe : bool; fx_dot_safe : bool }.
-Definition pinned : fixes := mkFixes false false false false false false.
-Definition repaired : fixes := mkFixes true true true true true true.
+  fx_num_unset : bool; fx_remove_safe : bool; fx_dot_safe : bool; fx_hidden_stays : bool }.
+Definition pinned : fixes := mkFixes false false false false false false false.
+Definition repaired : fixes := mkFixes true true true true true true true.
 
 (* ---------- helpers with Python semantics ---------- *)
 
@@ -344,5 +347,17 @@ Fixpoint merge_loop (fx : fixes) (dict : str -> option str) (ls : list lentry) (
 
 Definition merge_link_files (fx : fixes) (ls : list lentry) (fes : list oentry) : result (list oentry) :=
   merge_loop fx (dict_lookup fes) ls fes.
+
+(* D25.  Whether a link entry falls into the final `else` branch of the loop (the
+   selector index has no such file) is decided by the index alone, which never
+   changes; the repaired loop `continue`s there when the file was dropped by its
+   .cap file (`dropped` = the selectors prep_entriesappend did not append) or when
+   the block is itself a hide block.  So the repaired loop is the loop over the
+   remaining link entries. *)
+Definition prune_drops (fx : fixes) (dropped : list str) (dict : str -> option str) (le : lentry) : bool :=
+  le_merge le && isnone (dict (e_selector (le_entry le))) &&
+  (mem_str (e_selector (le_entry le)) dropped || link_hides fx (e_type (le_entry le))).
+Definition prune (fx : fixes) (dropped : list str) (dict : str -> option str) (ls : list lentry) : list lentry :=
+  if fx_hidden_stays fx then filter (fun le => negb (prune_drops fx dropped dict le)) ls else ls.
 
 Definition oentry_leb (a b : oentry) : bool := entry_leb (snd a) (snd b).
